@@ -154,4 +154,29 @@ def run (s : St) : List Op → List St
 
 def init (cfg : Cfg) : St := { cfg }
 
+/-- One misbehaving client of the `srvk` stream as operations of client `k` in the server model.
+    A reset and an immediate close are the same to the accept loop (a connection that is already
+    dead when, or shortly after, it is accepted); a stalled client just stays connected. -/
+def faultOps (k : Nat) (f : String) : List Op :=
+  let f := if f.startsWith "pre:" then (f.drop 4).toString else f
+  match f with
+  | "rst" | "close" => [.conn k, .close k]
+  | "garbage" | "tlshalf" => [.conn k, .send k .garbage, .close k]
+  | "half" => [.conn k, .send k .half, .close k]
+  | "stall" => [.conn k]
+  | _ => []
+
+def kernelOps (faults : List String) : List Op :=
+  let n := faults.length
+  (List.range n |>.zip faults).flatMap (fun p => faultOps p.1 p.2) ++ [.conn n, .send n .full, .gate n]
+
+def kernelInit (auto : Bool) (n : Nat) : St :=
+  { cfg := { auto := auto, graceful := false, makefail := none }, clients := List.replicate (n + 1) {} }
+
+/-- final state of the model for a `srvk` case: server result and whether the probe was served -/
+def kernelRun (auto : Bool) (faults : List String) : Srv × Bool :=
+  let s := (kernelOps faults).foldl step (kernelInit auto faults.length)
+  (s.srv, (s.clients.getD faults.length {}).resp == 1)
+
+
 end Hd.Server
